@@ -42,7 +42,8 @@ def run(ctx: Ctx):
             ctx.notes.append(f"stopped early at snapshot {i}")
             break
         c18_lib.read_cases(ctx, c18_lib.gen_case(ctx.rng), "read_object")
-    c18_lib.sharded_cases(ctx, ctx.n(12, 150))
+    c18_lib.sharded_cases(ctx, ctx.n(30, 300))
+    c18_lib.real_fs_many_pieces(ctx, ctx.n(3, 30))
 
 
 def replay(ctx: Ctx, rec):
